@@ -296,8 +296,54 @@ def judge_loopback(ctx, items):
     return len(items), traces
 
 
+# ------------------------------------------------------------------------------- serial (pty) scenarios
+# (script, what the property statement requires: PortState path | completion classes | termination), written by hand
+SERIAL = [
+    ('hold:2 E wait:2 link go wait:3 S:1:100 waitc:1 D wait:4 S:2:100 waitc:2 E wait:5 serve:off S:3:30 waitc:3 X done',
+     'sD sW20000000 sO sD sO sS|c1:Ok c2:NoConnection c3:Timeout|done after:Shutdown|'),
+    ('sleep:30 X done', 'sD sS||done after:Shutdown|'),
+    ('link E wait:2 S:1:100 waitc:1 H done', 'sD sO sS|c1:Ok|done|'),
+    ('link E wait:2 S:1:100 waitc:1 hold:3 unlink hup wait:3 S:2:50 go waitc:2 hold:4 wait:4 link go wait:5 S:3:100 waitc:3 X done',
+     'sD sO sW20000000 sW20000000 sO sS|c1:Ok c2:NoConnection c3:Ok|done after:Shutdown|'),
+    ('S:1:50 waitc:1 H done', 'sD sS|c1:NoConnection|done|'),
+    ('hold:2 E wait:2 hold:3 go wait:3 hold:4 go wait:4 X go done', 'sD sW20000000 sW40000000 sW40000000 sS||done after:Shutdown|'),
+    ('hold:2 E wait:2 D go wait:3 S:1:50 waitc:1 X done', 'sD sW20000000 sD sS|c1:NoConnection|done after:Shutdown|'),
+    ('link serve:off E wait:2 S:1:40 sleep:5 X waitc:1 done', 'sD sO sS|c1:Timeout|done after:Shutdown|'),
+    ('link E wait:2 D wait:3 E wait:4 D wait:5 H done', 'sD sO sD sO sD sS||done|'),
+]
+
+PCO = {'sD': 'SDisabled', 'sO': 'SOpen', 'sS': 'SShutdown'}
+
+
+def serial(ctx):
+    lines = [f'rmin={RMS} rmax={2 * RMS} | {sc}' for sc, _ in SERIAL]
+    impl = ctx.harness('serialcycle', lines, shards=3, timeout=300)
+    traces = [i.split('|')[0].split() for i in impl]
+    res = ctx.coq_eval(['Base.Show', 'Spec.Lifecycle'], 'fun l : list pstate => show_bool (plegal l)',
+                       ['[' + '; '.join(PCO.get(x, 'SWait ' + x[2:]) for x in t) + ']' for t in traces], case_type='list pstate')
+    bad = 0
+    for (sc, want), line, i, legal in zip(SERIAL, lines, impl, res):
+        why = []
+        if legal != '1':
+            why.append('C13.serial.illegal-port-state-path')
+        if i != want:
+            why.append('C13.serial.outcome-differs-from-the-expected-one')
+        if why:
+            bad += 1
+            if bad == 1:
+                ctx.violation(why[0], f'serial scenario [{line}]: {", ".join(why)}; impl={i} expected={want}',
+                              {'serial': [[sc, want]], 'impl': i})
+    ctx.oblige('serial:real-rtu-client-task-on-a-pty', bad == 0, f'{bad} of {len(SERIAL)} scenarios')
+    return len(SERIAL)
+
+
 def run(ctx):
     if not cl.prepare(ctx, ['Spec.Lifecycle']):
+        return
+    if ctx.replay and 'serial' in ctx.replay:
+        global SERIAL
+        SERIAL = [tuple(x) for x in ctx.replay['serial']]
+        serial(ctx)
         return
     if ctx.replay and 'loopback' in ctx.replay:
         judge_loopback(ctx, [(o, l, cl.case_from_json(j)) for o, l, j in ctx.replay['loopback']])
@@ -328,20 +374,23 @@ def run(ctx):
     ctx.oblige('spec:Lifecycle.legal-on-implementation-listener-traces', not bad, f'{len(bad)} illegal of {len(traces)} traces ({len(distinct)} distinct)')
 
     n_loop, ltraces = (0, [])
+    n_serial = 0
     if not ctx.replay:
         n_loop, ltraces = loopback(ctx, 60 if ctx.quick() else 150)
+        n_serial = serial(ctx)
     classes = {}
     for c, i in zip(cases, impl):
         for k in cl.classify(c, i):
             classes[k] = classes.get(k, 0) + 1
     classes['distinct-listener-traces'] = len(distinct)
     classes['loopback-scenarios'] = n_loop
+    classes['serial-pty-scenarios'] = n_serial
     classes['loopback-distinct-listener-traces'] = len(set(tuple(t) for t in ltraces))
     for t in ltraces:
         for x in set(y[:2] for y in t):
             classes['loopback-listener:' + x] = classes.get('loopback-listener:' + x, 0) + 1
     ctx.coverage.update({
-        'evaluations': len(cases) + len(distinct) + n_loop,
+        'evaluations': len(cases) + len(distinct) + n_loop + n_serial,
         'distinct_nontrivial': len([t for t in distinct if len(t) >= 3]),
         'rule': 'event scripts biased to enable/disable/connect results/lost connections/shutdown/handle drops (directed list first); non-trivial = distinct listener traces with at least three notifications',
         'samples': [[cl.to_line(c), i] for c, i in list(zip(cases, impl))[:3]],
